@@ -251,6 +251,8 @@ def run_unit(u):
             ns = rng.choice(C05.NSMAPS)
             cu = rng.choice([None, C05.CUSTOM])
 
+            lazy_edit = rng.random() < .3
+
             def run(flags):
                 buf = io.StringIO()
                 sv.purge()
@@ -262,6 +264,28 @@ def run_unit(u):
                     for d in docs:
                         s2, r = monitors.guarded_call(c.select, d)
                         out.append([id(x) for x in r] if s2 == 'ok' else (s2, type(r).__name__))
+                    if lazy_edit:
+                        # iselect consumed lazily while the caller edits the tree between two items: with and without DEBUG the
+                        # walk must see the same tree at the same moments
+                        import copy as _copy
+
+                        def lazy():
+                            d3 = bs4.BeautifulSoup(C05.HTML, 'html.parser')
+                            it = c.iselect(d3)
+                            first = next(it, None)
+                            seq = []
+                            if first is not None:
+                                seq.append((first.name, first.get('id')))
+                                new = _copy.copy(first)
+                                new['id'] = 'spawned'
+                                (d3.body or d3).append(new)
+                                nxt = first.find_next_sibling()
+                                if nxt is not None:
+                                    nxt.extract()
+                                seq += [(x.name, x.get('id')) for x in it]
+                            return seq
+                        s3, r3 = monitors.guarded_call(lazy)
+                        out.append(r3 if s3 == 'ok' else (s3, type(r3).__name__))
                 return ('ok', c.selectors, out), buf.getvalue()
             a, out_a = run(0)
             b, out_b = run(sv.DEBUG)
